@@ -232,7 +232,7 @@ def run(prop, tier, replay=None):
                 f.write(json.dumps({k: v for k, v in e.items() if k in ("id", "f", "exit", "rows", "count", "value", "file", "lib")}) + "\n")
         meta = os.path.join(A.BUILD, "tlc", "cli-%d-%d" % (os.getpid(), si))
         shutil.rmtree(meta, ignore_errors=True); os.makedirs(meta, exist_ok=True)
-        cmd = ["java", "-XX:+UseParallelGC", "-Xmx2g", "-Xss64m", "-cp", A.JAVA_CP, "tlc2.TLC", "-workers", "1", "-metadir", meta,
+        cmd = ["java", "-XX:+UseParallelGC", "-Xmx2g", "-Xss64m", "-cp", A.JAVA_CP, "tlc2.TLC", "-noGenerateSpecTE", "-workers", "1", "-metadir", meta,
                "-config", os.path.join(A.SPEC, "AsmCli.cfg"), os.path.join(A.SPEC, "AsmCli.tla")]
         env = dict(os.environ, TRACE=tr)
         env.pop("OUT", None)
